@@ -138,9 +138,10 @@ pub enum Out {
     /// Debug rendering of the extracted value
     Ok(String),
     /// the rejection is a deserr error: its Debug rendering, and the response it maps to
-    DeserrErr { err: String, status: u16, body: Vec<u8>, tok_header: bool },
-    /// framework-level rejection
-    Framework { status: u16, body: Vec<u8>, display: String },
+    /// (`announced` is what `ResponseError::status_code()` says, `status` what the response has)
+    DeserrErr { err: String, status: u16, announced: u16, body: Vec<u8>, tok_header: bool },
+    /// framework-level rejection; `rest` is what is left of the request body afterwards
+    Framework { status: u16, announced: u16, body: Vec<u8>, display: String, rest: String },
     Panic(String),
 }
 
@@ -148,10 +149,13 @@ impl Out {
     pub fn render(&self) -> String {
         match self {
             Out::Ok(v) => format!("Ok({v})"),
-            Out::DeserrErr { err, status, body, tok_header } => {
-                format!("DeserrErr({err}) -> {status} {:?} tok_header={tok_header}", String::from_utf8_lossy(body))
+            Out::DeserrErr { err, status, announced, body, tok_header } => {
+                format!("DeserrErr({err}) -> {status} (status_code() announces {announced}) {:?} tok_header={tok_header}", String::from_utf8_lossy(body))
             }
-            Out::Framework { status, body, display } => format!("Framework({status} {:?} display={display:?})", String::from_utf8_lossy(body)),
+            Out::Framework { status, announced, body, display, rest } => format!(
+                "Framework({status} (status_code() announces {announced}) {:?} display={display:?} body left unread: {rest})",
+                String::from_utf8_lossy(body)
+            ),
             Out::Panic(m) => format!("PANIC {m}"),
         }
     }
@@ -165,8 +169,9 @@ impl Out {
     }
 }
 
-fn actix_resp(e: &actix_web::Error) -> (u16, Vec<u8>, bool) {
+fn actix_resp(e: &actix_web::Error) -> (u16, Vec<u8>, bool, u16) {
     use actix_web::body::MessageBody;
+    let announced = e.as_response_error().status_code().as_u16();
     let resp = e.error_response();
     let status = resp.status().as_u16();
     let tok = resp.headers().contains_key("x-tok");
@@ -174,7 +179,21 @@ fn actix_resp(e: &actix_web::Error) -> (u16, Vec<u8>, bool) {
         Ok(b) => b.to_vec(),
         Err(_) => b"<streaming body>".to_vec(),
     };
-    (status, body, tok)
+    (status, body, tok, announced)
+}
+
+/// What is left of an actix request body once the extractor is done with the request.
+async fn drain(mut p: actix_web::dev::Payload) -> String {
+    use futures::StreamExt;
+    let mut bytes: Vec<u8> = vec![];
+    loop {
+        match p.next().await {
+            None => break,
+            Some(Ok(b)) => bytes.extend_from_slice(&b),
+            Some(Err(e)) => return format!("{} bytes then the stream error {e}", bytes.len()),
+        }
+    }
+    format!("{} bytes {:?}", bytes.len(), String::from_utf8_lossy(&bytes))
 }
 
 /// Poll a future that never waits (collecting an in-memory response body).
@@ -274,10 +293,10 @@ where
         match fut.await {
             Ok(v) => Out::Ok(format!("{:?}", v.into_inner())),
             Err(e) => {
-                let (status, body, tok) = actix_resp(&e);
+                let (status, body, tok, announced) = actix_resp(&e);
                 match e.as_error::<E>() {
-                    Some(de) => Out::DeserrErr { err: format!("{de:?}"), status, body, tok_header: tok },
-                    None => Out::Framework { status, body, display: e.to_string() },
+                    Some(de) => Out::DeserrErr { err: format!("{de:?}"), status, announced, body, tok_header: tok },
+                    None => Out::Framework { status, announced, body, display: e.to_string(), rest: drain(payload).await },
                 }
             }
         }
@@ -298,14 +317,14 @@ where
         let _keep = req;
         match fut.await {
             Err(e) => {
-                let (status, body, _) = actix_resp(&e);
-                Out::Framework { status, body, display: e.to_string() }
+                let (status, body, _, announced) = actix_resp(&e);
+                Out::Framework { status, announced, body, display: e.to_string(), rest: drain(payload).await }
             }
             Ok(doc) => match deserr::deserialize::<T, _, E>(doc.into_inner()) {
                 Ok(v) => Out::Ok(format!("{v:?}")),
                 Err(de) => {
                     let (status, body, tok) = de.expected();
-                    Out::DeserrErr { err: format!("{de:?}"), status, body, tok_header: tok }
+                    Out::DeserrErr { err: format!("{de:?}"), status, announced: status, body, tok_header: tok }
                 }
             },
         }
@@ -321,10 +340,10 @@ where
     let map = |r: Result<AwebQueryParameter<T, E>, actix_web::Error>| match r {
         Ok(v) => Out::Ok(format!("{:?}", v.into_inner())),
         Err(e) => {
-            let (status, body, tok) = actix_resp(&e);
+            let (status, body, tok, announced) = actix_resp(&e);
             match e.as_error::<E>() {
-                Some(de) => Out::DeserrErr { err: format!("{de:?}"), status, body, tok_header: tok },
-                None => Out::Framework { status, body, display: e.to_string() },
+                Some(de) => Out::DeserrErr { err: format!("{de:?}"), status, announced, body, tok_header: tok },
+                None => Out::Framework { status, announced, body, display: e.to_string(), rest: String::new() },
             }
         }
     };
@@ -365,14 +384,14 @@ where
         match actix_web::web::Query::<serde_json::Value>::from_query(&q) {
             Err(e) => {
                 let e: actix_web::Error = e.into();
-                let (status, body, _) = actix_resp(&e);
-                Out::Framework { status, body, display: e.to_string() }
+                let (status, body, _, announced) = actix_resp(&e);
+                Out::Framework { status, announced, body, display: e.to_string(), rest: String::new() }
             }
             Ok(doc) => match deserr::deserialize::<T, _, E>(doc.into_inner()) {
                 Ok(v) => Out::Ok(format!("{v:?}")),
                 Err(de) => {
                     let (status, body, tok) = de.expected();
-                    Out::DeserrErr { err: format!("{de:?}"), status, body, tok_header: tok }
+                    Out::DeserrErr { err: format!("{de:?}"), status, announced: status, body, tok_header: tok }
                 }
             },
         }
@@ -397,14 +416,14 @@ where
         match actix_web::web::Query::<serde_json::Value>::from_query(&q) {
             Err(e) => {
                 let e: actix_web::Error = e.into();
-                let (status, body, _) = actix_resp(&e);
-                Out::Framework { status, body, display: e.to_string() }
+                let (status, body, _, announced) = actix_resp(&e);
+                Out::Framework { status, announced, body, display: e.to_string(), rest: String::new() }
             }
             Ok(doc) => match deserr::deserialize::<T, _, E>(doc.into_inner()) {
                 Ok(v) => Out::Ok(format!("{v:?}")),
                 Err(de) => {
                     let (status, body, tok) = de.expected();
-                    Out::DeserrErr { err: format!("{de:?}"), status, body, tok_header: tok }
+                    Out::DeserrErr { err: format!("{de:?}"), status, announced: status, body, tok_header: tok }
                 }
             },
         }
@@ -466,13 +485,13 @@ where
             Err(AxumJsonRejection::DeserrError(e)) => {
                 let err = format!("{e:?}");
                 let (status, body, tok) = axum_resp(AxumJsonRejection::DeserrError(e).into_response());
-                Out::DeserrErr { err, status, body, tok_header: tok }
+                Out::DeserrErr { err, status, announced: status, body, tok_header: tok }
             }
             Err(rej @ AxumJsonRejection::JsonRejection(_)) => {
                 // Display and IntoResponse of the rejection wrapper are deserr code under test
                 let display = rej.to_string();
                 let (status, body, _) = axum_resp(rej.into_response());
-                Out::Framework { status, body, display }
+                Out::Framework { status, announced: status, body, display, rest: String::new() }
             }
         }
     })
@@ -491,13 +510,13 @@ where
             Err(r) => {
                 let display = r.to_string();
                 let (status, body, _) = axum_resp(r.into_response());
-                Out::Framework { status, body, display }
+                Out::Framework { status, announced: status, body, display, rest: String::new() }
             }
             Ok(axum::Json(doc)) => match deserr::deserialize::<T, _, E>(doc) {
                 Ok(v) => Out::Ok(format!("{v:?}")),
                 Err(de) => {
                     let (status, body, tok) = de.expected();
-                    Out::DeserrErr { err: format!("{de:?}"), status, body, tok_header: tok }
+                    Out::DeserrErr { err: format!("{de:?}"), status, announced: status, body, tok_header: tok }
                 }
             },
         }
